@@ -3,6 +3,30 @@
 import json, glob, os, re
 HERE = os.path.dirname(os.path.dirname(os.path.abspath(__file__)))
 STRENGTHENED = {
+ "C01-w9m2": "reported by C05 as strengthened for C10-w8m1 (X_1 and X_2 both taken)",
+ "C02-w9m2": "C02's multi-parent lines gained the style 'first parent named a second time'",
+ "C02-w9m3": "C02's order_by options gained a list holding 'length'",
+ "C04-w9m2": "C04's GTF part gained a gene id with a per-cent escape (GTF has none: the id is those characters)",
+ "C04-w9m3": "C04's third line with two ID values now carries the same value twice",
+ "C07-w9m2": "C07's non-strict rendering is also made with two blanks at every column boundary",
+ "C09-w9m1": "C09 'cons' also builds Feature objects from the raw attribute text (no dialect given)",
+ "C09-w9m2": "C09 'corners' gained first keys beginning with a digit / a non-ASCII letter",
+ "C09-w9m3": "C09 'corners' gained a column whose every value is an empty quoted string",
+ "C10-w9m1": "reported by C05, whose arrivals gained 'only the frame differs'",
+ "C10-w9m2": "C10's event A:mark passes both callbacks: parent and child are rewritten",
+ "C13-w9m3": "C13's inspect part gained an annotation whose features have no attributes",
+ "C14-w9m1": "reported by C13 as built (a transform that drops a feature must not end the pass)",
+ "C14-w9m2": "reported by C13, whose forms gained a file with bare-CR line ends",
+ "C13-w9m2": "reported by C14 as built (directives further down a file that has no header directive)",
+ "C15-w9m2": "C15's transcripts gained a child with an exon of its own (primary_transcript -> miRNA -> exon)",
+ "C17-w9m3": "C17's 'set' part gained a feature parsed from a line with an empty ninth column",
+ "C18-w9m2": "C18's nested block now lies strictly inside the LAST exon (blocks in end order would still end at the feature's end)",
+ "C18-w9m3": "C18 also passes use_strand=1 (truthy, not the bool True)",
+ "C19-w9m1": "C19's database file does not always end in '.db'",
+ "C19-w9m3": "C19 'clobber' gained the input form 'the old database itself, as a FeatureDB on the very path'",
+ "C20-w9m1": "C20 'hashseeds' gained a key whose third line must merge into the '<key>_1' entry, and a GTF job whose exons are shared by transcripts",
+ "C20-w9m2": "C20's second input carries an id with a blank (it travels through the intermediate file as a grandparent)",
+ "C20-w9m3": "reported by C20 'hashseeds' (GTF job) and by C05",
  "C01-w8m1": "file shape 'escapes' and C07's escape alphabet gained a value of two words; C07 now also parses every line with the dialect handed over and demands the inferred parse (C08 reported it as built)",
  "C01-w8m3": "reported by C13 as built (file reader's window one line short); C09 reports it too",
  "C03-w8m2": "reported by C12 and C01 as built (a feature ending exactly at 2**29)",
@@ -236,7 +260,9 @@ construction, text edge cases, the iterator protocol, the less travelled of two 
 and numeric edges. The seventh wave (`*-w7m*`) repeated the very first prompt (two changes per property, no hints,
 no list of earlier proposals) as a measurement of the checks as they stood after six waves: of its 40 changes 35 were
 reported straight away (33 by the property's own check), 4 were not reported and 1 only on some runs (see C12-w7m1). The eighth wave (`*-w8m*`) was told every earlier proposal and asked to strike out the code sites those touch and
-to make three one-token / one-line changes at sites nobody had touched. %d of the %d changes were not reported by their own property's check as it stood when they
+to make three one-token / one-line changes at sites nobody had touched. A ninth wave (`*-w9m*`) repeated the eighth's instructions with the longer list of taken sites; its reports were read before its
+changes were tried, and the checks were extended first where a report named something no check asked (so 'caught as built' is not
+claimed for that wave: the last column says what was added). %d of the %d changes were not reported by their own property's check as it stood when they
 were first tried (%d of those were reported by another property's check straight away); all are now. Four
 proposals were dropped, not kept as seeded changes: four (C02, C04, C10 in the fifth wave, C10 in the sixth)
 only alter what a FAILED update leaves in the main database file, which the statements leave open (C10 only
@@ -246,7 +272,9 @@ levels 1, 2 and their union), a region starting at 0 (C06 quantifies over 1 <= s
 but sqlite cannot store (C17 is about the JSON text and back, which still holds), an IndexError reachable only through the
 `leading semicolon` dialect flag that inference never sets and C08 does not list, the private `_keep_tempfiles` argument
 given as None (C20), and `ANALYZE` run when a database without statistics is opened (C19 lists features, relations,
-directives, dialect and id counters - all unchanged). One sixth-wave change (merge criterion on sequence names holding
+directives, dialect and id counters - all unchanged). Two ninth-wave proposals were dropped likewise: the deprecated `infer_gene_extent=False` spelling (C03 names the
+`disable_infer_*` flags) and `os.truncate` for `os.unlink` under force=True, which only shows through a hard link to the old file or a
+reader that still has it open (C19 speaks of the path's content). One sixth-wave change (merge criterion on sequence names holding
 a comma) is kept but only judged on runs of two members, see C16's assumptions. Scale is handled by adding, per property, one or two
 deliberately large executions next to the exhaustive small-scope exploration (C02, C03, C10, C16, C20);
 those are single cases, not an exhaustive sweep, and are labelled so in the evidence. Each was then confirmed here in a scratch copy
